@@ -120,7 +120,9 @@ class Sym:
             if o.a == 1:
                 return self
         elif self.op == "k" and self.a == 0:
+            DIVLOG.append(o)
             return ZERO
+        DIVLOG.append(o)
         return Sym("/", self, o)
 
     def __rtruediv__(self, o):
@@ -159,6 +161,8 @@ class Sym:
             return self
         if e == 0:
             return ONE
+        if e < 0 and self.op != "k":
+            DIVLOG.append(self)
         return Sym("pow", self, e)
 
     def __rpow__(self, base):
@@ -253,6 +257,18 @@ class Sym:
 
 ZERO = Sym("k", 0)
 ONE = Sym("k", 1)
+DIVLOG = []  # every non-constant divisor met during a symbolic run (well-definedness obligations)
+DIV_EXEMPT = [0]  # > 0 while the real assign_norm_cont runs: its radicand is positive by the trusted
+#                   precondition "a contraction is not the zero function"
+
+
+class _DivLog(list):
+    def append(self, x):
+        if not DIV_EXEMPT[0]:
+            list.append(self, x)
+
+
+DIVLOG = _DivLog()
 
 
 class SymInf:
